@@ -131,8 +131,10 @@ Inv_Pair == c.k = "pair" =>
     /\ (SqE(c.x, c.y) = 0 <=> c.x = c.y)
     /\ SqE(c.x, c.y) = N2(c.x) + N2(c.y) - 2 * Dot(c.x, c.y)
     \* Cauchy-Schwarz: the cosine similarity lies in [-1, 1], and is exactly 1 between a vector and itself
-    /\ Dot(c.x, c.y) * Dot(c.x, c.y) <= N2(c.x) * N2(c.y)
-    /\ Dot(c.x, c.x) * Dot(c.x, c.x) = N2(c.x) * N2(c.x)
+    \* (TLC integers are 32 bit: the products are only formed where they fit)
+    /\ (N2(c.x) <= 40000 /\ N2(c.y) <= 40000 =>
+            /\ Dot(c.x, c.y) * Dot(c.x, c.y) <= N2(c.x) * N2(c.y)
+            /\ Dot(c.x, c.x) * Dot(c.x, c.x) = N2(c.x) * N2(c.x))
 
 \* Quantize clips, never wraps; Dequantize o Quantize is within half a step of the clipped value; monotone
 Inv_Quant == c.k = "quant" =>
